@@ -311,7 +311,7 @@ def function_hashes(run):
 # helpers on values
 
 def deep_concrete(v, depth=0):
-    if isinstance(v, (Sym, SObj, MBytes, InterpFunction, BoundMethod, SuperProxy)):
+    if isinstance(v, (Sym, SObj, MBytes, InterpFunction, BoundMethod, SuperProxy)) or type(v).__name__ == 'MBytesIO':
         return False
     if depth > 6:
         return True
@@ -487,6 +487,8 @@ def get_attr(ctx, obj, name):
         py_raise(AttributeError('super has no attribute %s' % name))
     if isinstance(obj, (Sym, MBytes)):
         return libmodels.sym_method(ctx, obj, name)
+    if isinstance(obj, libmodels.MBytesIO):
+        return libmodels._bio_method(ctx, obj, name)
     if isinstance(obj, InterpFunction):
         if name == '__name__':
             return obj.__name__
@@ -1080,6 +1082,11 @@ class Interp(object):
             for n in [st] + list(_walk_local(st)):
                 if isinstance(n, ast.Name) and isinstance(n.ctx, (ast.Store, ast.Del)):
                     names.add(n.id)
+                elif isinstance(n, ast.Call) and isinstance(n.func, ast.Attribute) and isinstance(n.func.value, ast.Name) \
+                        and n.func.attr in _MUTATING_METHODS:
+                    names.add(n.func.value.id)       # object mutated in place inside the loop
+                elif isinstance(n, ast.Subscript) and isinstance(n.ctx, (ast.Store, ast.Del)) and isinstance(n.value, ast.Name):
+                    names.add(n.value.id)
         return names
 
     def _havoc(self, names, extra):
@@ -1401,6 +1408,15 @@ class Interp(object):
 
     # -- expressions -----------------------------------------------------------
     def eval(self, e):
+        hooks = self.ctx.run.expr_hooks
+        if hooks and isinstance(e, ast.Call):
+            hs = hooks.get(self.f.fkey)
+            if hs:
+                txt = ast.unparse(e)
+                for pat, handler in hs:
+                    mm = pat.fullmatch(txt)
+                    if mm:
+                        return handler(self, e, mm)
         m = getattr(self, 'e_' + type(e).__name__, None)
         if m is None:
             raise Unsupported('expression %s at line %s' % (type(e).__name__, getattr(e, 'lineno', '?')))
@@ -1838,6 +1854,8 @@ class Interp(object):
 
 
 _SEQS = (SBytes, SStr, SSeq)
+_MUTATING_METHODS = {'append', 'extend', 'add', 'pop', 'remove', 'clear', 'update', 'insert', 'popleft', 'discard',
+                     'appendleft', 'setdefault', 'popitem', 'sort', 'reverse', 'write', 'seek', 'read'}
 _LOOP_ORD = {}
 
 
